@@ -374,6 +374,81 @@ class ViaBulk(Fam):
         return f"a={inp['a']} b={inp['b']} dtypes={inp['dta']},{inp['dtb']}"
 
 
+class ViaBulkSelections(Fam):
+    """the bulk entry points with an index selection that is not sorted and unique (permuted runs, repeats, reversed): the cell reported for
+    position (x, y) of the selection must be the correctly rounded ratio of the pair (refs[idx[x]], refs[idx[y]])"""
+    name = 'via-bulk-index-selections'
+    exhaustive = True
+    SETS = [[0, 1, 2, 3], [2, 3, 4], [0, 5], [1, 2, 6, 7, 8], [4, 9], [0, 1, 2, 3, 4, 5, 6, 7]]
+    IDX = [[0, 2, 1, 3], [1, 3, 2, 4], [1, 2, 2, 4], [0, 0, 2], [0, 1, 1, 2], [4, 3, 2, 1, 0], [2, 2, 3], [5, 0, 1], [3, 5, 4], [1, 1, 3, 2, 5], [0, 1, 2, 3],
+           [-1, 0, -2], [2, 4, 3, 5]]
+    rule = ('6 fixed sets in a SignatureArray / SignatureList / HDF5 file; jaccarddist_matrix(ref_indices=idx) and jaccarddist_pairwise(indices=idx) for 13 index '
+            'arrays (permuted runs whose end points look like a range, repeats, reversed, negative) as list / int64 array, chunk sizes {None, 2, 3}; every cell x != y')
+
+    def inputs(self, ctx):
+        for ii, idx in enumerate(self.IDX):
+            for x in range(len(idx)):
+                for y in range(len(idx)):
+                    if x == y:
+                        continue
+                    for ci, cont in enumerate(('array', 'list', 'hdf5')):
+                        for chunk in (None, 2, 3):
+                            if ctx.tier != 'thorough' and (ii + x + y + ci + (chunk or 0)) % 2:
+                                continue
+                            yield dict(idx=idx, x=x, y=y, cont=cont, chunk=chunk, asarray=bool((x + y + ci) % 2))
+
+    _H5 = {}
+
+    def refs(self, cont):
+        from gambit.sigs import SignatureArray, SignatureList, dump_signatures, load_signatures
+        from gambit.kmers import KmerSpec
+        import os, tempfile
+        ks = KmerSpec(4, 'A')
+        arr = SignatureArray([np.array(s, dtype='u2') for s in self.SETS], ks, dtype=np.dtype('u2'))
+        if cont == 'array':
+            return arr
+        if cont == 'list':
+            return SignatureList(arr)
+        key = os.getpid()
+        if key not in self._H5:
+            d = tempfile.mkdtemp(prefix='c02sel-', dir=os.environ.get('VERIF_TMP', '/var/tmp'))
+            path = os.path.join(d, 'r.gs')
+            dump_signatures(path, arr)
+            self._H5[key] = load_signatures(path)
+            import atexit, shutil
+            atexit.register(shutil.rmtree, d, True)
+        return self._H5[key]
+
+    def execute(self, inp):
+        from gambit.metric import jaccarddist_matrix, jaccarddist_pairwise
+        idx = inp['idx']
+        a_vals, b_vals = self.SETS[idx[inp['x']]], self.SETS[idx[inp['y']]]
+        ra, rb = ranks(a_vals, b_vals)
+        r = dict(op='set', a=ra, b=rb, dta='u2', dtb='u2', ok=False, err='')
+        z = f32_fields(0.0)
+        r.update(dab=z, dba=z, jab=fix47(0.0), jba=fix47(0.0))
+        try:
+            refs = self.refs(inp['cont'])
+            sel = np.array(idx, dtype=np.int64) if inp['asarray'] else list(idx)
+            a = np.array(a_vals, dtype='u2'); b = np.array(b_vals, dtype='u2')
+            kw = {} if inp['chunk'] is None else dict(chunksize=inp['chunk'])
+            m = jaccarddist_matrix([a, b], refs, ref_indices=sel, **kw)
+            pw = jaccarddist_pairwise(refs, indices=sel)
+            r['dab'] = f32_fields(m[0][inp['y']]) if float(m[0][inp['y']]) == float(pw[inp['x']][inp['y']]) else f32_fields(np.float32(-1))
+            r['dba'] = f32_fields(m[1][inp['x']]) if float(m[1][inp['x']]) == float(pw[inp['y']][inp['x']]) else f32_fields(np.float32(-1))
+            r['jab'] = fix47(jaccard(a, b)); r['jba'] = fix47(jaccard(b, a))
+            r['ok'] = True
+        except Exception as e:
+            r['err'] = type(e).__name__
+        return r
+
+    def nontrivial(self, inp, rec):
+        return core.short_hash(inp) if sorted(set(inp['idx'])) != list(inp['idx']) else None
+
+    def describe(self, inp, rec):
+        return f"idx={inp['idx']} cell=({inp['x']},{inp['y']}) container={inp['cont']} chunksize={inp['chunk']}"
+
+
 class LongIntervals(Fam):
     """signatures of 2^12 .. 2^20 (thorough 2^23) k-mers, lengths at and next to powers of two: the sets are unions of intervals, shipped to
     TLC as interval lists (cardinalities by arithmetic)"""
@@ -421,7 +496,7 @@ class LongIntervals(Fam):
         return f"{inp['shape']} a={inp['a']} b={inp['b']} dtypes={inp['dta']},{inp['dtb']} top={inp['top']}"
 
 
-FAMILIES = [ExhaustiveSubsets, ByteOrder, RandomSets, AliasedViews, ViaBulk, LongIntervals]
+FAMILIES = [ExhaustiveSubsets, ByteOrder, RandomSets, AliasedViews, ViaBulk, ViaBulkSelections, LongIntervals]
 
 
 def run(ctx):
